@@ -636,6 +636,22 @@ def _rev_pairs(seed, tier):
             yield {"rpm": case["rpm"], "u": u, "x": "1"}
 
 
+@domain("C13.upgrade_pairs_expand_and_compress")
+def _upm_pairs(seed, tier):
+    rng = random.Random(seed)
+    for pm in _prefix_maps(rng, 60 if tier == "quick" else 600):
+        for p in pm:
+            yield {"pm": pm, "p": p, "x": "1"}
+
+
+@domain("C13.jsonld_pairs_expand_and_compress")
+def _jl_pairs(seed, tier):
+    for case in _fjl(seed, tier):
+        ctx = case["data"]["@context"]
+        for p in list(ctx) + ["zz"]:
+            yield {"data": case["data"], "p": p, "x": "1"}
+
+
 @domain("C13.listed_pairs_expand_and_compress")
 def _pairs(seed, tier):
     rng = random.Random(seed)
